@@ -45,48 +45,83 @@ fn c19_poll_period_and_demand() {
 // @tier quick
 // @timeout 1800
 // @mem 6
-// @units PollMap::{new, add, next, complete, demand, remove}, Smallest::observe
-// @bounds two polls with arbitrary periods (1 ms..1 h) added at arbitrary instants, queried at an arbitrary instant: Now <=> one of them is due (and the one returned is due); otherwise NotBefore(t) with t = the EARLIEST deadline and t > now (the caller's sleep cannot return immediately: no spinning); after removal of both: None
+// @units PollMap::{new, add, next, remove}, Poll::{is_ready, next}, Smallest::observe
+// @bounds two registered polls whose deadlines are ARBITRARY instants (or absent), queried at an arbitrary instant: Now <=> one of them is due, and the poll returned is a due one; otherwise NotBefore(t) with t = the EARLIEST deadline and t > now (the caller's sleep cannot return immediately: no spinning); no deadline at all / no polls: None.  (The map is built with fixed periods so that its tree shape is concrete; the deadlines are then overwritten with symbolic values.)
 // @stubs tokio::time::Instant::now -> harness clock
 #[kani::proof]
 #[kani::unwind(6)]
 #[kani::stub(tokio::time::Instant::now, crate::verif_common::now_fixed)]
 fn c19_pollmap_next() {
+    set_now(1000, 0);
     let mut m = PollMap::new();
-    assert!(matches!(m.next(any_instant()), Next::None));
-    let p1 = any_duration_ms(3_600_000);
-    let p2 = any_duration_ms(3_600_000);
-    kani::assume(p1 > Duration::from_millis(0) && p2 > Duration::from_millis(0));
-    let t1 = set_now_any();
-    let id1 = m.add(req(), p1);
-    let t2 = set_now_any();
-    let id2 = m.add(req(), p2);
+    let id1 = m.add(req(), Duration::from_secs(5));
+    let id2 = m.add(req(), Duration::from_secs(7));
     assert!(id1 != id2);
-    let d1 = t1 + p1;
-    let d2 = t2 + p2;
+    let d1 = if kani::any() { Some(any_instant()) } else { None };
+    let d2 = if kani::any() { Some(any_instant()) } else { None };
+    m.polls.get_mut(&id1).unwrap().next = d1;
+    m.polls.get_mut(&id2).unwrap().next = d2;
     let now = any_instant();
+    let due1 = matches!(d1, Some(d) if d <= now);
+    let due2 = matches!(d2, Some(d) if d <= now);
     match m.next(now) {
         Next::Now(p) => {
-            assert!(d1 <= now || d2 <= now);
-            assert!(if p.id == id1 { d1 <= now } else { p.id == id2 && d2 <= now });
+            assert!(due1 || due2);
+            assert!(if p.id == id1 { due1 } else { p.id == id2 && due2 });
+            std::mem::forget(p);
         }
         Next::NotBefore(t) => {
-            assert!(d1 > now && d2 > now);
-            assert!(t == if d1 < d2 { d1 } else { d2 });
-            assert!(t > now);
+            assert!(!due1 && !due2);
+            let earliest = match (d1, d2) {
+                (Some(a), Some(b)) => if a < b { a } else { b },
+                (Some(a), None) => a,
+                (None, Some(b)) => b,
+                (None, None) => panic!("no deadline, nothing to wait for"),
+            };
+            assert!(t == earliest && t > now);
         }
-        Next::None => panic!("two polls are registered"),
+        Next::None => assert!(d1.is_none() && d2.is_none()),
     }
-    // completing a poll pushes its deadline one period past the completion instant
-    let t3 = set_now_any();
-    m.complete(id1);
-    let now2 = any_instant();
-    let due1 = now2 >= t3 + p1;
-    let due2 = now2 >= d2;
-    assert!(matches!(m.next(now2), Next::Now(_)) == (due1 || due2));
-    assert!(m.remove(id1) && m.remove(id2) && !m.remove(id1));
-    assert!(matches!(m.next(now2), Next::None));
-    kani::cover!(d1 > now && d2 > now && d2 < d1);
-    kani::cover!(d1 <= now);
+    kani::cover!(!due1 && !due2 && d1.is_some() && d2.is_some());
+    kani::cover!(due2 && !due1);
+    std::mem::forget(m);
+}
+
+// @harness c19_pollmap_complete_and_remove
+// @props C19
+// @tier quick
+// @timeout 1800
+// @mem 6
+// @units PollMap::{add, complete, demand, remove, next}, Poll::reset_next
+// @bounds one registered poll with an arbitrary period (1 ms..1 h): completing it at an arbitrary instant moves its deadline to completion + period; demanding it makes it due at once; removing it leaves nothing to schedule
+// @stubs tokio::time::Instant::now -> harness clock
+#[kani::proof]
+#[kani::unwind(6)]
+#[kani::stub(tokio::time::Instant::now, crate::verif_common::now_fixed)]
+fn c19_pollmap_complete_and_remove() {
+    set_now(1000, 0);
+    let mut m = PollMap::new();
+    assert!(matches!(m.next(any_instant()), Next::None));
+    let period = any_duration_ms(3_600_000);
+    kani::assume(period > Duration::from_millis(0));
+    let id = m.add(req(), period);
+    let t = set_now_any();
+    m.complete(id);
+    let q = any_instant();
+    match m.next(q) {
+        Next::Now(p) => {
+            assert!(q >= t + period);
+            std::mem::forget(p);
+        }
+        Next::NotBefore(x) => assert!(q < t + period && x == t + period),
+        Next::None => panic!("a poll is registered"),
+    }
+    let t2 = set_now_any();
+    assert!(m.demand(id) && !m.demand(id + 1));
+    assert!(matches!(m.next(t2), Next::Now(_)));
+    assert!(m.remove(id) && !m.remove(id));
+    assert!(matches!(m.next(t2), Next::None));
+    kani::cover!(q >= t + period);
+    kani::cover!(q < t + period);
     std::mem::forget(m);
 }
